@@ -270,6 +270,71 @@ def protocol_history(chunk):
     return {"viol": dedupe(viol), "n": n, "states": states}
 
 
+def protocol_history_file(chunk):
+    """Attempt histories whose output is a File value that something else may rewrite between attempts: a reusable output must still be
+    VALID; an invalid one is discarded like a missing one, and never survives a failing retry."""
+    import wf.remote as wr
+    from redun.executors.command import get_oneshot_command
+    from redun.executors.scratch import parse_job_error, parse_job_result, write_array_job_scratch_files
+
+    from engine import common
+
+    common.quiet_redun()
+    scratch = os.path.join(common.scratch_dir(), f"c32-f-{os.getpid()}")
+    viol, n = [], 0
+    for hist, no_cache, array in chunk:
+        shutil.rmtree(scratch, ignore_errors=True)
+        os.makedirs(scratch)
+        path = os.path.join(scratch, "data.txt")
+        opts = {"cache": False} if no_cache else None
+        job = make_job(wr.flaky_file, (path,), {}, opts)
+        other = make_job(wr.flaky_file, (path + ".other",), {}, opts)
+        case = {"leg": "history-file", "attempts": [list(h) for h in hist], "no_cache": no_cache, "array": array}
+        if array:
+            write_array_job_scratch_files([other, job], scratch, "arrayid2")
+            cmd = get_oneshot_command(scratch, other, other.task, job_options=other.get_options(), array_uuid="arrayid2")
+        else:
+            cmd = get_oneshot_command(scratch, job, job.task, (path,), {}, job_options=job.get_options())
+        m_out = m_valid = False
+        for step, (fails, invalidate) in enumerate(hist):
+            if invalidate and os.path.exists(path):
+                with open(path, "w") as f:
+                    f.write("rewritten by somebody else " + "x" * step)
+                m_valid = False
+            wr.MODE["fail"] = bool(fails)
+            del wr.CALLS[:]
+            try:
+                st, _ = run_oneshot(cmd, index=1 if array else None)
+            finally:
+                wr.MODE["fail"] = False
+            n += 1
+            if m_out and m_valid and not no_cache:
+                want_st, want_calls = "ok", 0
+            else:
+                want_calls = 1
+                want_st = "err" if fails else "ok"
+                m_out = m_valid = not fails
+            where = f"attempt {step + 1} of {[list(h) for h in hist]} ((fails, output rewritten before)) no_cache={no_cache} array={array}"
+            if st != want_st or len(wr.CALLS) != want_calls:
+                viol.append((f"history-file:wrong-attempt-outcome:no_cache={no_cache}", case, f"{where}: container {st} after {len(wr.CALLS)} calls of the task body, expected {want_st} after {want_calls}"))
+                break
+            if st == "ok":
+                res, exists = parse_job_result(scratch, job)
+                if not exists or type(res).__name__ != "File" or res.path != path:
+                    viol.append((f"history-file:wrong-result:no_cache={no_cache}", case, f"{where}: monitor reads {res!r} exists={exists}"))
+            else:
+                err, _tb = parse_job_error(scratch, job)
+                if exc_key(err) != ("builtins.RuntimeError", repr((f"flaky_file {path!r}",))):
+                    viol.append((f"history-file:wrong-error:no_cache={no_cache}", case, f"{where}: monitor reads error {err!r}"))
+            o, e = files_of(scratch, job)
+            dst = docker_status(scratch, job)
+            if o != (want_st == "ok") or e != (want_st == "err") or (dst == "SUCCEEDED") != (want_st == "ok"):
+                viol.append((f"history-file:stale-file-left:no_cache={no_cache}:array={array}", case,
+                             f"{where}: output exists={o}, error exists={e}, Docker completion rule says {dst} after a container that {want_st}"))
+    shutil.rmtree(scratch, ignore_errors=True)
+    return {"viol": dedupe(viol), "n": n, "states": set()}
+
+
 # ------------------------------------------------------------------------------------------------ leg: names
 PREFIXES = ["redun-job", "a", "a-b-c", "x-array", "array", "-", "job-", "redun-job-array", "0f", "p_q.r"]
 
@@ -571,6 +636,14 @@ def run(ctx):
     r3 = ctx.pmap(protocol_history, chunks(ctx.rotate(hists), 10), chunksize=1)
     check_harness_errors(r3)
     ctx.add_results(r3)
+    Lf = ctx.pick(3, 4)
+    steps = [(0, 0), (1, 0), (0, 1), (1, 1)]
+    fhists = [(h, nc, arr) for k in range(1, Lf + 1) for h in itertools.product(steps, repeat=k) for nc in (False, True) for arr in (False, True)]
+    r3f = ctx.pmap(protocol_history_file, chunks(ctx.rotate(fhists), 12), chunksize=1)
+    check_harness_errors(r3f)
+    ctx.add_results(r3f)
+    r3 = r3 + r3f
+    hists = hists + fhists
 
     n_names = names_leg(ctx)
 
@@ -600,7 +673,7 @@ def run(ctx):
         f"unpicklable exception) x cache flag as single jobs; every array of <=3 elements over 6-element alphabets of two tasks, every index, run in "
         f"{'2 orders' if ctx.quick else 'every order'}, index supplied through each of the 3 environment variables; every attempt history (ok/fail) of length <= {L} "
         "x cache flag x single/array element against the reference model of the scratch files (stale output/error never read, body runs iff no reusable "
-        f"output). names: {len(PREFIXES)} prefixes x 9 hashes x array flag. reunite: every ordered subset of 3 evaluations x grouping into single/array "
+        f"output); the same with a File-valued output that is rewritten between attempts (a reusable output must still be valid). names: {len(PREFIXES)} prefixes x 9 hashes x array flag. reunite: every ordered subset of 3 evaluations x grouping into single/array "
         f"submissions x every subset finished before the second session x every subset resubmitted, x {len(prefixes)} job-name prefixes, with unrelated "
         "jobs on the queue; real executor code against a fake Batch API whose containers run the real oneshot entry point",
         "samples": [repr(single_items[0][2:]), repr(scen[0])],
